@@ -536,33 +536,47 @@ func (o *Oracle) judgeAuthSignOut(e *Exchange) {
 		return
 	}
 	rev := l3Child(e, "revoke")
-	if rev == nil && e.Overlap {
-		// request coalescing (C16) lets a submission join the identical revocation that an overlapping submission
-		// started earlier: a revocation of this very session's token, of this step, still outstanding when this
-		// request arrived, is the one that answers it
+	okShape := func(rev *Exchange) bool {
+		if rev == nil || rev.Err != "" {
+			return false
+		}
+		if rev.Status == 200 {
+			return true
+		}
+		if rev.Status == 400 {
+			var d struct {
+				Desc string `json:"error_description"`
+			}
+			// already revoked: the documented idempotent shape
+			return json.Unmarshal(rev.RespBody, &d) == nil && (strings.Contains(strings.ToLower(d.Desc), "token is invalid or expired") || d.Desc == "Token expired or revoked")
+		}
+		return false
+	}
+	overlapOK := false
+	if e.Overlap {
+		// two submissions in flight at once: request coalescing (C16) may let one join the revocation the other started,
+		// or each may run its own, and the log cannot tell whose is whose. What is judged is what holds either way: this
+		// submission may clear the cookie only if some revocation of this session's token in this step succeeded, and must
+		// report failure if every one of them failed.
 		for _, c := range o.w.Log.Ended(0, L3) {
-			if c.Step != e.Step || c.Seq > e.Seq || c.Done < e.At || !(strings.HasSuffix(c.Path, "/revoke") || strings.HasSuffix(c.Path, "revoke")) {
+			if c.Step != e.Step || !(strings.HasSuffix(c.Path, "/revoke") || strings.HasSuffix(c.Path, "revoke")) {
 				continue
 			}
 			if tok := firstOr(append(formValuesOf(c, "token"), "")); tok != "" && (tok == S.RefreshToken || tok == S.AccessToken) {
-				rev = c
+				if okShape(c) {
+					overlapOK = true
+					rev = c
+				} else if rev == nil || !overlapOK {
+					rev = c
+				}
 			}
 		}
 	}
 	cleared := clearsCookieAt(e, name, o.abs(e.Done).Add(time.Second))
 	redirected := e.Status >= 300 && e.Status < 400
-	revOK := false
-	if rev != nil && rev.Err == "" {
-		if rev.Status == 200 {
-			revOK = true
-		} else if rev.Status == 400 {
-			var d struct {
-				Desc string `json:"error_description"`
-			}
-			if json.Unmarshal(rev.RespBody, &d) == nil && (strings.Contains(strings.ToLower(d.Desc), "token is invalid or expired") || d.Desc == "Token expired or revoked") {
-				revOK = true // already revoked: the documented idempotent shape
-			}
-		}
+	revOK := okShape(rev)
+	if e.Overlap {
+		revOK = overlapOK
 	}
 	presented := ""
 	if rev != nil {
